@@ -298,7 +298,10 @@ func propC12(c *Check) {
 		}
 		exp := p.FindCalls(urp, `^Int\.Exp\(big\.NewInt\(2\), big\.NewInt\(2\), big\.NewInt\(\(Context\.BlockHeight\(\) / Params\.Get\(\)#0\.HalvingInterval\)\), nil\)`)
 		div := p.FindCalls(urp, `^Int\.Div\(big\.NewInt\(Params\.Get\(\)#0\.InitialBlockReward\), big\.NewInt\(Params\.Get\(\)#0\.InitialBlockReward\), `)
-		for name, ok := range map[string]bool{"min-selected-when-reward>remaining": okMin, "halving-when-interval-elapsed": okHalv && len(exp) == 1 && len(div) == 1, "gas-added-only-when-positive": okGas} {
+		// reward / 2^n written as a right shift of the reward by n (floor division by a power of two, like Exp + Div)
+		rsh := p.FindCalls(urp, `^Int\.Rsh\(big\.NewInt\(Params\.Get\(\)#0\.InitialBlockReward\), big\.NewInt\(Params\.Get\(\)#0\.InitialBlockReward\), \(Context\.BlockHeight\(\) / Params\.Get\(\)#0\.HalvingInterval\)\)`)
+		halved := len(exp) == 1 && len(div) == 1 && len(rsh) == 0 || len(exp) == 0 && len(div) == 0 && len(rsh) == 1
+		for name, ok := range map[string]bool{"min-selected-when-reward>remaining": okMin, "halving-when-interval-elapsed": okHalv && halved, "gas-added-only-when-positive": okGas} {
 			if ok {
 				c.Held("R1", name+" @ "+FuncKey(urp), p.Pos(urp.Pos()), "")
 			} else {
